@@ -1,6 +1,7 @@
 import RF.Model.Proto
 import RF.Model.Session
 import RF.Model.Project
+import RF.Model.ParseErrors
 /-!
 Line-protocol operations for the session / project control-flow models (C05, C15; the exit formulas are
 also C06's).
@@ -17,7 +18,7 @@ also C06's).
         generated step list, generated phases; `<steps>` as in proj.run)
   proj.cli <check> <usePath> <emitter> <vcfg> <roots>      -> exit:flags:entries    `format` over several
         roots with the generated lists (`runCli` with `projectF`); `<vcfg>` is the global configuration
-  proj.faulty <cfg> <crate>                 -> 0|1        oracle `faulty`
+  proj.faulty <cfg> <crate>                 -> 0|1        hypothesis `faultyE` of `fault_implies_no_write` (a reachable file with a fault)
   proj.resolve <cfg> <crate>                -> err | list of ids    `visit_crate`: keys of the file map in map order
   proj.safe <phases>                        -> 0|1        `phasesSafe`
   proj.filesafe <steps>                     -> 0|1        `fileStepsSafe`
@@ -38,7 +39,21 @@ Encodings (all blank-free)
   crate     file records joined by `;`, the first one is the root.  A record is
               id:parse:bits:lineflags:orig:visited:children
             id        decimal; stands for the path, numeric order must be the `FileName` order
-            parse     ok | lex | syntax | unclosed | panic   (`syntax` is read as `lex`: both are `ParseError`)
+            parse     what the rustc parser does on the file; the status `File.parse` that `format_project` sees is
+                      COMPUTED from it by the error bookkeeping (`RF.ParseErrors.annotateRoot` with the generated
+                      tables), in the session state left by the files parsed before it:
+                        ok  no diagnostic
+                        r   recoverable syntax error: one error located in the file, the parser returns `Ok`
+                        s   one *stashed* error located in the file (`static X = 1;`), the parser returns `Ok`
+                        w   one warning located in the file, `Ok`
+                        u   unrecoverable: one error located in the file, then `Err(e)` with `e` located in the file
+                        x   unclosed delimiter: errors located in the file; a module's call unwinds
+                            (`unwrap_or_emit_fatal`), the root's `ParserBuilder::build` returns `Ok(Err(_))`
+                        f   lexer-fatal error: one `Fatal` diagnostic located in the file, the call unwinds
+                        z   the file cannot be read: one `Fatal` diagnostic without a span, the call unwinds
+                      and, kept for older requests, statuses that do not depend on the ignore list (their
+                      diagnostics are located outside every local file): lex | syntax (an error, `Ok`),
+                      unclosed (an error, unwinds), panic (a fatal diagnostic, unwinds)
             bits      five characters `0`/`1`: inner `#![rustfmt::skip]`, on the ignore list, generated-file
                       marker (and `format_generated_files=false`), macro rewrite failure, emitter I/O error
             lineflags flags that `format_lines` → `track_errors` sets for this file
@@ -47,7 +62,10 @@ Encodings (all blank-free)
                       (the driver's text passes are: `format_lines` = identity, `apply_newline_style` = identity)
             children  `_` or `,`-joined references, one per `mod m;` item in source order:
                       `f<id>` resolved to the record with that id, `s` not visited (`#[rustfmt::skip] mod m;`
-                      or already parsed), `n` no file, `m` both `m.rs` and `m/mod.rs`
+                      or already parsed), `n` no file, `m` both `m.rs` and `m/mod.rs`,
+                      `c<id>+<id>…/<d>` a `mod m;` with nested paths (`#[cfg_attr(pred, path = "..")]`): the
+                      candidates that exist, in attribute order, then the default look-up `<d>` = `f<id>` | `n` | `m`
+                      (what `find_external_module` does with each parse result is computed from the generated arms)
             Records are expanded into a tree from the root; a record referenced twice is visited twice; a
             reference cycle or an unknown id is a protocol error (`?`).
   roots     joined by `|`; each is `m` (missing), `x` (local configuration fails to load) or `<vcfg>@<crate>`
@@ -59,6 +77,7 @@ Encodings (all blank-free)
 -/
 namespace RF.Driver.Session
 open RF.Proto RF.Session RF.Project RF.Gen.Phases RF.Gen.Emitters
+open RF.ParseErrors (FileParse Diag Level Loc Raw genParse genMods annotateRoot faultyE)
 
 def bit (b : Bool) : Char := if b then '1' else '0'
 
@@ -127,16 +146,30 @@ def decVCfg (s : String) : Option (Config Cfg) := do
   | [v, d, a, b] => some ⟨v, d, { skipChildren := a, ignoreGlobOk := b }⟩
   | _ => none
 
-def decParse : String → Option Parse
-  | "ok" => some .ok
-  | "lex" => some .lexErr
-  | "syntax" => some .lexErr   -- any other syntax error: reported as `ParserError::ParseError`, like a lexer error
-  | "unclosed" => some .unclosed
-  | "panic" => some .panic
+/-- what the parser does on a file of the given class (`own` = where diagnostics of the file itself lie) -/
+def decParse (w : String) (ignored root : Bool) : Option FileParse :=
+  let own : Loc := .localFile ignored
+  let err (l : Loc) : Diag := { level := .error, loc := l }
+  match w with
+  | "ok" => some {}
+  | "r" => some { diags := [err own] }
+  | "s" => some { diags := [{ level := .error, loc := own, stashed := true }] }
+  | "w" => some { diags := [{ level := .warning, loc := own }] }
+  | "u" => some { diags := [err own], raw := .err (err own) }
+  | "x" =>
+    if root then some { diags := [err own], raw := .err (err own), stage := .build }
+    else some { diags := [err own], raw := .unwound }
+  | "f" => some { diags := [{ level := .fatal, loc := own }], raw := .unwound, stage := .build }
+  | "z" => some { diags := [{ level := .fatal, loc := .noSpan }], raw := .unwound, stage := .build }
+  | "lex" => some { diags := [err .notLocal] }
+  | "syntax" => some { diags := [err .notLocal] }
+  | "unclosed" => some { diags := [err .notLocal], raw := .unwound, stage := .build }
+  | "panic" => some { diags := [{ level := .fatal, loc := .notLocal }], raw := .unwound, stage := .build }
   | _ => none
 
 inductive Child where
   | found (id : Nat) | skipped | notFound | multiple
+  | cfgAttr (alts : List Nat) (dk : DfltKind) (dflt : Nat)
 
 def decChild (s : String) : Option Child :=
   match s.toList with
@@ -144,50 +177,86 @@ def decChild (s : String) : Option Child :=
   | ['n'] => some .notFound
   | ['m'] => some .multiple
   | 'f' :: r => (String.ofList r).toNat?.map .found
+  | 'c' :: r =>
+    match (String.ofList r).splitOn "/" with
+    | [alts, d] => do
+      let alts ← if alts == "" then some [] else (alts.splitOn "+").mapM (·.toNat?)
+      match d.toList with
+      | ['n'] => some (.cfgAttr alts .notFound 0)
+      | ['m'] => some (.cfgAttr alts .multiple 0)
+      | 'f' :: i => (String.ofList i).toNat?.map (.cfgAttr alts .found)
+      | _ => none
+    | _ => none
   | _ => none
 
 structure Rec where
   file : File
   children : List Child
+  word : String := "ok"     -- the parse class, turned into a `FileParse` once the root is known
 
 def decRec (s : String) : Option Rec :=
   match s.splitOn ":" with
   | [id, parse, bits, lf, orig, visited, ch] => do
     let id ← id.toNat?
-    let parse ← decParse parse
+    let _ ← decParse parse false false
     let lf ← decFlags lf
     let orig ← decChars orig
     let visited ← decChars visited
     let ch ← if ch == "_" then some [] else (ch.splitOn ",").mapM decChild
     match ← decBits 5 bits with
     | [a, b, c, d, e] =>
-      some ⟨{ path := id, parse, orig, visited, skipAttr := a, ignored := b, generated := c,
-              lineFlags := lf, macroFailure := d, ioErr := e }, ch⟩
+      some ⟨{ path := id, parse := .ok, orig, visited, skipAttr := a, ignored := b, generated := c,
+              lineFlags := lf, macroFailure := d, ioErr := e }, ch, parse⟩
     | _ => none
   | _ => none
 
-def buildMods (rec : Nat → Option Tree) : List Child → Option Mods
+def buildAlts (rec : Nat → Option Tree) : List Nat → Option Alts
+  | [] => some .nil
+  | id :: r => do
+    let t ← rec id
+    let a ← buildAlts rec r
+    pure (.cons .use t a)
+
+/-- `parent`: the declaring file (what the file map holds for a path that is registered with the declaring
+item's module has the parent's text) -/
+def buildMods (rec : Nat → Option Tree) (parent : File) : List Child → Option Mods
   | [] => some .nil
   | .found id :: r => do
     let t ← rec id
-    let m ← buildMods rec r
+    let m ← buildMods rec parent r
     pure (.found t m)
-  | .skipped :: r => (buildMods rec r).map .skipped
-  | .notFound :: r => (buildMods rec r).map .notFound
-  | .multiple :: r => (buildMods rec r).map .multiple
+  | .skipped :: r => (buildMods rec parent r).map .skipped
+  | .notFound :: r => (buildMods rec parent r).map .notFound
+  | .multiple :: r => (buildMods rec parent r).map .multiple
+  | .cfgAttr alts dk d :: r => do
+    let a ← buildAlts rec alts
+    let dummy : Tree := .node { path := 0, parse := .ok, orig := [], visited := [] } .nil
+    let dt ← if dk == .found then rec d else some dummy
+    let m ← buildMods rec parent r
+    pure (.cfgAttr a dk .file dt { dt.file with visited := parent.visited } m)
 
 def buildTree (recs : List Rec) : Nat → Nat → Option Tree
   | 0, _ => none
   | fuel + 1, id => do
     let r ← recs.find? (·.file.path == id)
-    let m ← buildMods (buildTree recs fuel) r.children
+    let m ← buildMods (buildTree recs fuel) r.file r.children
     pure (.node r.file m)
 
-def decCrate (s : String) : Option Tree := do
+/-- the crate as written (every `File.parse` still `.ok`) and, per path, what the parser does on the file -/
+def decCrateRaw (s : String) : Option (Tree × (Nat → FileParse)) := do
   let recs ← (s.splitOn ";").mapM decRec
   match recs with
   | [] => none
-  | r :: _ => buildTree recs (recs.length + 1) r.file.path
+  | r :: _ =>
+    let t ← buildTree recs (recs.length + 1) r.file.path
+    let table := recs.map fun x =>
+      (x.file.path, (decParse x.word x.file.ignored (x.file.path == r.file.path)).getD {})
+    pure (t, fun id => ((table.find? (·.1 == id)).map (·.2)).getD {})
+
+/-- the crate as `format_project` sees it under `cfg`: statuses computed by the generated bookkeeping -/
+def decCrate (cfg : Cfg) (s : String) : Option Tree := do
+  let (t, pi) ← decCrateRaw s
+  pure (annotateRoot genParse genMods pi cfg t)
 
 def encP : P → String
   | .file => "F" | .tmp => "T" | .bk => "B"
@@ -237,7 +306,7 @@ def decRoot (s : String) : Option (Arg Cfg Tree) :=
     match s.splitOn "@" with
     | [c, t] => do
       let c ← decVCfg c
-      let t ← decCrate t
+      let t ← decCrate c.opts t
       pure (.file (some c) t)
     | _ => none
 
@@ -273,13 +342,13 @@ def handle (op : String) (args : List String) : Option String :=
     let st ← decSteps st
     let em ← decEmitter em
     let cfg ← decCfg cfg
-    let t ← decCrate crate
+    let t ← decCrate cfg crate
     pure (encResult (runProject ps st idOps em cfg t))
   | "proj.input", [st, em, c, crate] => do
     let st ← decSteps st
     let em ← decEmitter em
     let c ← decVCfg c
-    let t ← decCrate crate
+    let t ← decCrate c.opts crate
     pure (encResult (runInput formatInputInner formatProject st idOps em c t))
   | "proj.cli", [c, u, em, g, roots] => do
     let c ← decBool c
@@ -292,11 +361,11 @@ def handle (op : String) (args : List String) : Option String :=
     pure s!"{r.exit c}:{encFlags r.sess.errors}:{es}"
   | "proj.faulty", [cfg, crate] => do
     let cfg ← decCfg cfg
-    let t ← decCrate crate
-    pure (String.ofList [bit (faulty cfg t)])
+    let (t, pi) ← decCrateRaw crate
+    pure (String.ofList [bit (faultyE pi cfg t)])
   | "proj.resolve", [cfg, crate] => do
     let cfg ← decCfg cfg
-    let t ← decCrate crate
+    let t ← decCrate cfg crate
     match visitCrate (!cfg.skipChildren) t with
     | none => pure "err"
     | some fs => pure (if fs.isEmpty then "_" else String.intercalate "," (fs.map fun f => toString f.path))
